@@ -394,6 +394,7 @@ var c18cli = &h.Campaign[CLICase]{
 
 // The full cross product of put flags and input sources over representative inputs.
 func TestC18CLIMatrix(t *testing.T) {
+	h.FirstShardOnly(t)
 	rec := h.NewRec("C18", "cli-matrix", "every combination of --verbatim x --trim-space x --empty-ok x {--from-file, pipe} (16) over 12 representative inputs (empty, plain, ASCII and Unicode surrounding whitespace, whitespace only, invalid UTF-8 with and without surrounding whitespace, NUL, look-alike non-whitespace, 70 KB text with trailing newline, 70 KB binary): complete enumeration; non-trivial as in the cli sub-campaign; distinct by (flags, source, input)")
 	defer rec.Flush()
 	big := bytes.Repeat([]byte("0123456789abcdef"), 4400)
@@ -449,6 +450,7 @@ func TestC18CLI(t *testing.T)       { c18cli.Check(t) }
 
 // the policy model itself must agree with the property's own examples
 func TestC18PolicySelfCheck(t *testing.T) {
+	h.FirstShardOnly(t)
 	type ex struct {
 		in           string
 		v, tr, e, ok bool
